@@ -137,8 +137,22 @@ impl Frame {
         Ok(())
     }
 
+    // The attribute length is one byte and the body length two: refuse what does not fit
+    pub fn check_encodable(&self) -> IoResult<()> {
+        if let Some(TargetAddress::DomainPort(host, _)) = &self.addr {
+            if host.len() + 2 > 255 {
+                return Err(IoError::new(ErrorKind::InvalidInput, "host name too long"));
+            }
+        }
+        if self.body.len() > 65535 {
+            return Err(IoError::new(ErrorKind::InvalidInput, "body too long"));
+        }
+        Ok(())
+    }
+
     // Write head and body to output stream
     pub async fn write_to<T: AsyncWrite + Unpin>(&self, output: &mut T) -> IoResult<usize> {
+        self.check_encodable()?;
         let head = self.make_header();
         output.write_all(&head).await?;
         output.write_all(&self.body).await?;
